@@ -14,7 +14,7 @@ fn main() {
     rs.dedup();
     let spec = if quick { Spec::open(2, 1, 2, 2, 2, 1, 1) } else { Spec::open(2, 2, 2, 2, 2, 1, 1) };
     let u = spec.universe();
-    let cap = if quick { u.count() } else { 200_000 };
+    let cap = if quick { u.count() } else { 100_000 };
     let nr = rs.len() as u64;
     ctx.run_slice(Slice::new(format!("routing[{} first {} x {} optics]", spec.name(), cap.min(u.count()), nr), u.count().min(cap) * nr, |i, loc| {
         let f = u.get_open(i / nr);
@@ -47,7 +47,7 @@ fn main() {
         check_optic::<B>(&ub1.get_open(i), Arc::new(r), &serde_json::json!(r), false, loc)
     }));
     // functoriality
-    let specp = if quick { Spec::open(2, 1, 1, 2, 1, 1, 1) } else { Spec::open(2, 1, 2, 2, 2, 1, 1) };
+    let specp = if quick { Spec::open(2, 1, 1, 2, 1, 1, 1) } else { Spec::open(2, 1, 1, 2, 2, 1, 1) };
     let up = specp.universe().all_open();
     let np = up.len() as u64;
     ctx.run_slice(Slice::new(format!("functoriality[{}^2 x 3 optics]", specp.name()), np * np * 3, |i, loc| {
